@@ -203,6 +203,9 @@ def check(ctx):
     # itself (C03/R2)
     from rules import c03
     c03.rule_mirror(ctx, TT.build(ctx), "R3")
+    # start_with(v) reaches every animated property of a generated timeline (C17/G6)
+    from rules import derive_rules
+    derive_rules.rule_blend_wiring(ctx, "R5")
     from rules import c12
     c12.check_loop_method(ctx, ctx.facts, "R4", "update", mutable=False)
     c12.check_loop_method(ctx, ctx.facts, "R4", "start_with", mutable=True)
